@@ -18,8 +18,8 @@ pub trait TreapItem: Sized {
             match _right { Some(r) => (*final(r)).own() == (*r).own() + old(self).pend() && (*final(r)).pend() == (*r).pend() + old(self).pend()
                                    && (*final(r)).agg() == (*r).agg() + old(self).pend() * (*r).sz() && (*final(r)).sz() == (*r).sz(), None => true };
 }
-pub trait TreapItemSized {
-    fn size(&self) -> usize;
+pub trait TreapItemSized: TreapItem {
+    fn size(&self) -> (r: usize) ensures r == self.sz();
 }
 type Priority = u32;
 pub struct TreapNode<T> {
@@ -202,6 +202,81 @@ impl<T: TreapItem> TreapNode<T> {
                 assert(nwf(r3));
             }
             right
+        }
+    }
+}
+
+impl<T> TreapNode<T>
+where
+    T: TreapItem + TreapItemSized,
+{
+    pub fn split_at(mut root: Option<Box<Self>>, pos: usize) -> (res: (Option<Box<Self>>, Option<Box<Self>>))
+        requires owf(root), pos <= oelems(root).len(),
+        ensures owf(res.0), owf(res.1),
+            oelems(res.0) == oelems(root).subrange(0, pos as int),
+            oelems(res.1) == oelems(root).subrange(pos as int, oelems(root).len() as int),
+            match root { Some(r) => oprio_ge(res.0, r.priority) && oprio_ge(res.1, r.priority), None => res.0.is_none() && res.1.is_none() },
+        decreases oelems(root).len()
+    {
+        if root.is_none() {
+            proof { assert(oelems(root).subrange(0, 0) =~= oelems(root)); }
+            return (None, None);
+        }
+        let ghost r0 = *root.unwrap();
+        root.as_mut().unwrap().push();
+        let ghost r1 = *root.unwrap();
+        let ghost ll = oelems(r1.left).len() as int;
+        let ghost rl = oelems(r1.right).len() as int;
+        proof { lemma_shift_zero(oelems(r1.left)); lemma_shift_zero(oelems(r1.right));
+            assert(nelems(r1) =~= oelems(r1.left) + seq![r1.item.own()] + oelems(r1.right));
+            assert(nelems(r0).len() == ll + 1 + rl);
+            match r1.left { Some(c) => { assert(nwf(*c)); assert(c.item.sz() == ll); }, None => { assert(ll == 0); } }
+            assert(owf(r1.left)); assert(owf(r1.right));
+        }
+        if pos > root.as_ref().unwrap().left.as_ref().map(|i: &Box<TreapNode<T>>| -> (r: usize) ensures r == i.item.sz() { i.item.size() }).unwrap_or(0) {
+            let (a, b) = Self::split_at(
+                root.as_mut().unwrap().right.take(),
+                pos - root.as_ref().unwrap().left.as_ref().map(|i: &Box<TreapNode<T>>| -> (r: usize) ensures r == i.item.sz() { i.item.size() }).unwrap_or(0) - 1,
+            );
+            root.as_mut().unwrap().right = a;
+            root.as_mut().unwrap().update();
+            proof {
+                let r3 = *root.unwrap();
+                let ll = oelems(r1.left).len() as int;
+                lemma_shift_zero(oelems(r3.left)); lemma_shift_zero(oelems(r3.right));
+                lemma_sum_concat(oelems(r3.left) + seq![r3.item.own()], oelems(r3.right));
+                lemma_sum_concat(oelems(r3.left), seq![r3.item.own()]);
+                lemma_sum_one(r3.item.own());
+                assert(oelems(r3.left) == oelems(r1.left));
+                assert(oelems(r3.right) == oelems(r1.right).subrange(0, pos - ll - 1));
+                assert(nelems(r3) =~= oelems(r3.left) + seq![r3.item.own()] + oelems(r3.right));
+                assert(nelems(r3) =~= nelems(r0).subrange(0, pos as int));
+                assert(oelems(b) =~= nelems(r0).subrange(pos as int, nelems(r0).len() as int));
+                assert(owf(r3.left)); assert(owf(r3.right));
+                assert(oprio_ge(r3.left, r3.priority)); assert(oprio_ge(r3.right, r3.priority));
+                assert(nwf(r3));
+            }
+            (root, b)
+        } else {
+            let (a, b) = Self::split_at(root.as_mut().unwrap().left.take(), pos);
+            root.as_mut().unwrap().left = b;
+            root.as_mut().unwrap().update();
+            proof {
+                let r3 = *root.unwrap();
+                lemma_shift_zero(oelems(r3.left)); lemma_shift_zero(oelems(r3.right));
+                lemma_sum_concat(oelems(r3.left) + seq![r3.item.own()], oelems(r3.right));
+                lemma_sum_concat(oelems(r3.left), seq![r3.item.own()]);
+                lemma_sum_one(r3.item.own());
+                assert(oelems(r3.right) == oelems(r1.right));
+                assert(oelems(r3.left) == oelems(r1.left).subrange(pos as int, ll));
+                assert(nelems(r3) =~= oelems(r3.left) + seq![r3.item.own()] + oelems(r3.right));
+                assert(nelems(r3) =~= nelems(r0).subrange(pos as int, nelems(r0).len() as int));
+                assert(oelems(a) =~= nelems(r0).subrange(0, pos as int));
+                assert(owf(r3.left)); assert(owf(r3.right));
+                assert(oprio_ge(r3.left, r3.priority)); assert(oprio_ge(r3.right, r3.priority));
+                assert(nwf(r3));
+            }
+            (a, root)
         }
     }
 }
